@@ -240,6 +240,7 @@ def abstract_call(it, c, fn, bound):
     from .strings import XStr
     ctx = it.ctx
     it.used.add(c.qualname)
+    it.used.add(f'<abstract> {c.qualname}')
     for exc_cls in c.abstract_raises:
         may = mk_bool(ctx.fresh_bool(f'raises_{fn.__name__}_{exc_cls.__name__}'))
         if ctx.decide(may):
